@@ -8,7 +8,8 @@ NONTEST_NAMES = [b"FuzzThing/seed#0", b"BenchmarkX", b"ExampleY"]
 LINE_ALPHABET = [b"---", b"/-/-/-/", b"----", b"--- ", b" ---", b"", b" ", b"\t", b"a", b"b", b"hello world",
                  b"[", b"]", b"[TestA - 1", b"TestA - 1]", b"\xff\xfe", b"a\xffb", b"a\xfeb", b"\xc3\x28",
                  b"x\ry", b"\rz", b"{", b"}", b"key: value", b"- item", b"\xe2\x9c\x93 ok", b"--", b"/-/-/-/ ",
-                 b"int(5)", b"map[string]int{}", b"0", b"\x00", b"\x1b[0m", b"100%", b"%s %d %v", b"%!(EXTRA)", b"a%%b"]
+                 b"int(5)", b"map[string]int{}", b"0", b"\x00", b"\x1b[0m", b"100%", b"%s %d %v", b"%!(EXTRA)", b"a%%b",
+                 b"see a/-/-/-/b", b"see a---b", b"x /-/-/-/", b"x ---", b"/-/-/-/ y", b"--- y"]
 
 
 def gen_line(rng, headers=(), allow_header=False, allow_cr_end=False):
